@@ -40,6 +40,8 @@ def cases(draw, tier="quick"):
     c["relay"] = draw(st.sampled_from([False, True]))
     # the two sides are configured with different relays: each then has two relay hints of equal priority
     c["relay2"] = c["relay"] and draw(st.booleans())
+    # ... or the same relay configured under another host name on the other side (two relay hints, one relay)
+    c["relay_alias"] = c["relay"] and not c["relay2"] and draw(st.booleans())
     if c["nl_s"] and c["nl_r"] and not c["relay"]:
         c["nl_r"] = False
     c["bogus"] = [draw(st.integers(0, 2)), draw(st.integers(0, 2))]
@@ -181,6 +183,8 @@ def run_case(c):
                 prior_done = False       # cannot be staged on this tree: the case runs without it
         s = TransitSender(relay_url, no_listen=c["nl_s"], tor=tor_s, reactor=ns)
         relay_url_r = W.start_relay(port=4002, ip="10.0.0.201") if c.get("relay2") else relay_url
+        if c.get("relay_alias") and relay_url:
+            relay_url_r = "tcp:relay-alias.example:4001"      # (ports are global in the simulated network)
         r = TransitReceiver(relay_url_r, no_listen=c["nl_r"], tor=tor_r, reactor=nr)
         hs, hr = [], []
         s.get_connection_hints().addCallback(hs.extend)
@@ -428,7 +432,7 @@ def run_case(c):
                             exc=exc, frame=frame)
                 break
         res.nontrivial = established[0] >= 2 or bool(c["rogues"]) or nopath
-        res.features = dict(nl="%d%d" % (c["nl_s"], c["nl_r"]), relay=("two" if c.get("relay2") else c["relay"]), rogues=len(c["rogues"]), nopath=nopath,
+        res.features = dict(nl="%d%d" % (c["nl_s"], c["nl_r"]), relay=("two" if c.get("relay2") else "alias" if c.get("relay_alias") else c["relay"]), rogues=len(c["rogues"]), nopath=nopath,
                             slow=bool(c.get("slow_rogues")), prior=str(prior_done),
                             late=c["late"] or "-", tor=c.get("tor") or "-", est=common.bucket(established[0], [0, 1, 2, 4]),
                             probes=len(probes), ok=ok(S) and ok(R))
